@@ -26,6 +26,9 @@ def flip_first_ok(ev):
                     return True
         return False
     e = copy.deepcopy(ev)
+    if e.get("ev") == "block":
+        e["post"][3] = e["post"][3] + 1     # one right bracket too many in the carried state
+        return e
     if e.get("ev") == "rt" and isinstance(e.get("s2"), list):
         e["s2"] = e["s2"] + [32]          # the second serialisation differs by one trailing blank
         return e
@@ -40,6 +43,7 @@ SUITES = [
     ("sr-record", ["--seed", 5, "--n", 40, "--mode", "ser"], "Trace_Ser", {}),
     ("sr-record", ["--seed", 5, "--n", 40, "--mode", "rt"], "Trace_Ser", {}),
     ("lz-record", ["--seed", 5, "--n", 40], "Trace_Lazy", {}),
+    ("sk-record", ["--seed", 5, "--n", 40], "Trace_Skipper", {}),
     ("ty-record", ["--seed", 5, "--n", 90, "--mode", "conv"], "Trace_Serde", {}),
     ("ty-record", ["--seed", 5, "--n", 90, "--mode", "de"], "Trace_Serde", {}),
     ("ty-record", ["--seed", 5, "--n", 60, "--mode", "eq"], "Trace_Serde", {}),
